@@ -3,6 +3,8 @@ import GeosModel.Proofs.WKB.Bytes
 namespace GeosModel.WKB
 open GeosModel
 
+variable {arc : ArcOracle}
+
 theorem putU64_length (o : Order) (u : UInt64) : (putU64 o u).length = 8 := by
   cases o <;> simp [putU64]
 
@@ -73,8 +75,11 @@ theorem closedPts_map (z m : Bool) (ps : List Coord) : closedPts (ps.map (maskC 
 theorem lineOK_maskS (z m : Bool) (s : CSeq) : lineOK (maskS z m s) = lineOK s := by
   simp [lineOK, maskS]
 
-theorem circOK_maskS (z m : Bool) (s : CSeq) : circOK (maskS z m s) = circOK s := by
-  simp [circOK, maskS]
+theorem xyOf_map_maskC (z m : Bool) (ps : List Coord) : xyOf (ps.map (maskC z m)) = xyOf ps := by
+  simp [xyOf, List.map_map, Function.comp_def, maskC]
+
+theorem circOK_maskS (z m : Bool) (s : CSeq) : circOK arc (maskS z m s) = circOK arc s := by
+  simp [circOK, maskS, xyOf_map_maskC]
 
 theorem ringOK_maskS (z m : Bool) (s : CSeq) : ringOK (maskS z m s) = ringOK s := by
   simp [ringOK, maskS, closedPts_map]
